@@ -16,8 +16,12 @@ Fixpoint sum_v0 (m : objmap) (l : list obj) (acc : N) : out N :=
   | k :: l' => let s := (acc + hint_of_kid m k)%N in
                if (USIZE_MAX <? s)%N then Panic POverflow else sum_v0 m l' s
   end.
+(* (nb_pages, Some(nb_pages)): the same unclamped sum was promised as lower AND upper bound *)
 Definition size_hint_v0 (m : objmap) (kids : list obj) (stack : list (list obj)) : out N :=
   sum_v0 m (kids ++ concat stack) 0%N.
+
+(* the upper bound promised before the first next() on a document *)
+Definition hint_upper_v0 (d : doc) : out N := size_hint_v0 (d_objects d) (root_kids d) [].
 
 (* outcome of get_pages and the number of elements requested from the allocator *)
 Definition get_pages_v0 (d : doc) : out (list (N * oid)) * N :=
